@@ -359,6 +359,29 @@ def rule_bucket(ctx, rep, rid):
     node = ir.expr(p, ad.args[5])
     b_at = ir.expr(p, rhs[0].d["ap"]["base"], 2) if False else None
     rep.must_pass(rid, "populate.rh≺add", p, [p.entry()], adds, lambda i: i in rhs, include_start=True, what="reverse_hash is set before the bucket is linked")
+    # the level is published unconditionally once populate returns: the loops over a partition run over the whole range - no
+    # exit depends on anything but the index and the range handed in (not on a shared word such as resize_target)
+    for name, inner in (("init_table_populate_partition", "_cds_lfht_add"), ("remove_table_partition", "_cds_lfht_gc_bucket")):
+        g = fn(ctx, name)
+        rep.touch(g)
+        work = pat.calls(g, inner)
+        pat.require(work, "%s: %s call" % (name, inner))
+        comps = [c for c in g.sccs() if work[0].blk.id in c and len(c) > 1 or (work[0].blk.id in c and work[0].blk.id in g.blocks[work[0].blk.id].succ)]
+        pat.require(comps, "%s: loop around %s" % (name, inner))
+        comp = comps[0]
+        bad, nexit = [], 0
+        for b in comp:
+            for s_ in g.blocks[b].succ:
+                if s_ in comp:
+                    continue
+                nexit += 1
+                for a in ir.edge_atoms(g, b, s_):
+                    if len(a) == 3 and any(isinstance(x, tuple) and ir.expr_contains(x, lambda z: z[0] in ("load", "call", "asm", "rmw", "cmpxchg")) for x in (a[1], a[2])):
+                        bad.append((g.blocks[b].insts[-1], a))
+        pat.require(nexit >= 1, "%s: loop exit" % name)
+        rep.check(not bad, rid, name + ".covers-whole-range", "the partition loop ends only on its index bound (%d exit edge(s))" % nexit,
+                  "the partition loop can end early on %s: the rest of the range is left %s while the caller goes on to publish the new size / free the level" %
+                  (ir.atom_str(bad[0][1]) if bad else "", "unlinked (bucket nodes with next == NULL)" if "populate" in name else "linked"), [b_[0].where() for b_ in bad[:2]])
 
 
 def rule_rs(ctx, rep, rid):
@@ -882,6 +905,49 @@ def rule_bucketat(ctx, rep, rid):
             outer, inner, _ = sl[0]
             rep.check(inner == ("arg", 1), rid, "mmap.slot", "flat array: slot = index", "mmap allocator: slot is %s" % ir.expr_str(inner), [bf.name])
     pat.require(n >= 3, "only %d cds_lfht_mm_type tables found" % n)
+
+
+def rule_newparams(ctx, rep, rid):
+    """cds_lfht_new parameter normalisation.  The sizes handed to the allocator plugin and to the initial-size computation
+    are select trees over the three size arguments, the plugin argument and MIN_TABLE_SIZE that involve the sizes only through
+    unsigned comparisons, so the finitely many orderings of (init, min_alloc, max) - with max = 0 `unbounded` for the order
+    plugin - are enumerated and the expressions evaluated for each (sa/ceval.py; nothing of the library is executed).
+    Required: min' >= 1, min' <= max', 1 <= init' <= max', all powers of two: the three allocators size their first
+    allocation from min' and their reservation / index arithmetic from max'."""
+    import itertools
+    from .. import ceval
+    m = ctx.mod("cds", "perfn")
+    f = m.fn("_cds_lfht_new_with_alloc")
+    if f is None:
+        raise Broken("_cds_lfht_new_with_alloc vanished")
+    rep.touch(f)
+    al = [i for i in f.all_insts() if i.op == "icall" and (lambda e: e[0] == "load" and e[1].endswith("cds_lfht_mm_type.alloc_cds_lfht"))(ir.expr(f, i.d["fp"]))]
+    co = [c for c in f.calls() if c.callee and c.callee.startswith("cds_lfht_get_count_order")]
+    pat.require(len(al) == 1 and co, "cds_lfht_new: allocator call / initial order computation")
+    emin, emax, einit = ir.expr(f, al[0].args[0], 16), ir.expr(f, al[0].args[1], 16), ir.expr(f, co[0].args[0], 16)
+    mms = [("addr", "@cds_lfht_mm_order"), ("addr", "@cds_lfht_mm_chunk"), ("addr", "@cds_lfht_mm_mmap")]
+    for a in mms:
+        pat.require(a[1][1:] in m.globals, "plugin table %s" % a[1])
+    M64 = (1 << 64) - 1
+    pow2 = lambda x: x is not None and (x & M64) != 0 and ((x & M64) & ((x & M64) - 1)) == 0
+    bad = []
+    n = 0
+    sizes = (1, 2, 4, 8, 1 << 34)
+    for init, mn, mx, mm_ in itertools.product(sizes, sizes, sizes + (0,), [None] + mms):
+        env = {("arg", 0): init, ("arg", 1): mn, ("arg", 2): mx, ("arg", 4): (ceval.val(mm_, {}) if mm_ else 0), ("arg", 6): 0}
+        if mx == 0 and mm_ not in (None, mms[0]):
+            continue                    # rejected by the validation (max must be a power of two unless the order plugin)
+        n += 1
+        vmin, vmax, vinit = (ceval.val(e, env) for e in (emin, emax, einit))
+        if None in (vmin, vmax, vinit):
+            raise Broken("cds_lfht_new: normalised sizes not evaluable (%s)" % ir.expr_str(emax)[:120])
+        vmin, vmax, vinit = vmin & M64, vmax & M64, vinit & M64
+        ok = pow2(vmin) and pow2(vmax) and pow2(vinit) and vmin <= vmax and vinit <= vmax
+        if not ok:
+            bad.append("new(init=%d, min_alloc=%d, max=%d, mm=%s) -> min'=%d max'=%d init'=%d" % (init, mn, mx, mm_[1] if mm_ else "default", vmin, vmax, vinit))
+    rep.check(not bad, rid, "new.normalised-sizes", "for all %d orderings of (init, min_alloc, max, plugin): min' <= max', init' <= max', powers of two" % n,
+              "cds_lfht_new hands the allocator inconsistent sizes: %s - the mmap / chunk allocators size their first allocation from min' and their reservation from max' "
+              "(populate beyond the reservation overwrites neighbouring mappings; index arithmetic runs past the table)" % "; ".join(bad[:2]), [al[0].where()])
 
 
 def rule_mmapargs(ctx, rep, rid):
